@@ -128,6 +128,11 @@ package phase2
 
 // entering edge: a non-tree edge other than e from the head component of e to its tail component, of minimum slack,
 // the first such edge of the list on ties; nil exactly when there is no candidate
+//@ spec nsPos(n *Node) int
+//@ spec nsFeasible(g *DGraph) bool = forall i int :: 0 <= i && i < len(g.Edges) ==> g.Edges[i] != nil && g.Edges[i].From != nil && g.Edges[i].To != nil
+//@       && 0 <= nsPos(g.Edges[i].From) && nsPos(g.Edges[i].From) < len(g.Nodes) && g.Nodes[nsPos(g.Edges[i].From)] == g.Edges[i].From
+//@       && 0 <= nsPos(g.Edges[i].To) && nsPos(g.Edges[i].To) < len(g.Nodes) && g.Nodes[nsPos(g.Edges[i].To)] == g.Edges[i].To
+//@       && g.Edges[i].To.Layer - g.Edges[i].From.Layer - g.Edges[i].Delta >= 0
 //@ spec enterCand(p *networkSimplexProcessor, f *Edge, e *Edge) bool =
 //@   f != e && !f.IsInSpanningTree && p.inHeadComponent(f.From, e) && !p.inHeadComponent(f.To, e)
 
@@ -199,8 +204,17 @@ package phase2
 // whatever the pivots and the balancing did, the last step on every path is normalize or the balancing that keeps the
 // sign. (The preconditions of normalize and vbalance - distinct nodes, a feasible layering - are not established here;
 // the check claims only the postcondition and lists them as assumed.)
+// (C03) The pivot loop keeps the layering feasible: exchange's ensures[feas] re-establishes the invariant, and the
+// entering edge handed to exchange has minimum slack among the candidates (minSlackNonTreeEdge's ensures[min] meets
+// exchange's requires[min]). What the loop starts from - feasibleTree leaves a feasible layering whose edge ends are
+// nodes of the list - and the cut fact (requires[cut] of exchange) are explicit, reported assumptions.
 //@ func execNetworkSimplex
 //@   requires g != nil && len(g.Nodes) >= 1
+//@   assume[treefeasible|C03] after "p.feasibleTree(g)" : nsFeasible(g)
+//@   assume[cut|C03] before "p.exchange(e, f, g)" : forall i int :: 0 <= i && i < len(g.Edges) && p.inHeadComponent(g.Edges[i].From, e) && !p.inHeadComponent(g.Edges[i].To, e) ==>
+//@       g.Edges[i] != e && !g.Edges[i].IsInSpanningTree
+//@   loop for(e!=nil)#1
+//@     invariant[feas|C03] nsFeasible(g)
 //@   ensures[nonneg|C01] forall j int :: 0 <= j && j < len(g.Nodes) ==> g.Nodes[j].Layer >= 0
 
 // phase2.Alg.Process (C01): the layers the layerers hand back are used as indices into the band list. Safe because both
@@ -235,6 +249,20 @@ package phase2
 //@       && (forall i int, j int :: 0 <= i && i < j && j < len(g.Nodes) ==> g.Nodes[i] != g.Nodes[j])
 //@   ensures[shift|C03] forall j int :: 0 <= j && j < len(g.Nodes) ==> g.Nodes[j].Layer ==
 //@       old(g.Nodes[j].Layer) - ((old(p.inHeadComponent(g.Nodes[j], e)) || old(f.To.Layer - f.From.Layer - f.Delta) <= 0) ? 0 : old(f.To.Layer - f.From.Layer - f.Delta))
+// (C03) The theorem itself, on the real body: if the layering is feasible, every edge that runs from the head
+// component to the tail component is an entering candidate (the only tree edge across the cut is e, and it runs the
+// other way - requires[cut], a fact about the lim/low numbering that is assumed, not proved) and f has minimum slack
+// among the candidates (requires[min], which is minSlackNonTreeEdge's ensures[min]), then the layering is feasible after
+// the pivot. nsPos is a ghost index: every edge end is a node of the component's list, so the re-ranking reaches it.
+//@   requires[feas|C03] forall i int :: 0 <= i && i < len(g.Edges) ==> g.Edges[i] != nil && g.Edges[i].From != nil && g.Edges[i].To != nil
+//@       && 0 <= nsPos(g.Edges[i].From) && nsPos(g.Edges[i].From) < len(g.Nodes) && g.Nodes[nsPos(g.Edges[i].From)] == g.Edges[i].From
+//@       && 0 <= nsPos(g.Edges[i].To) && nsPos(g.Edges[i].To) < len(g.Nodes) && g.Nodes[nsPos(g.Edges[i].To)] == g.Edges[i].To
+//@       && g.Edges[i].To.Layer - g.Edges[i].From.Layer - g.Edges[i].Delta >= 0
+//@   requires[cut|C03] forall i int :: 0 <= i && i < len(g.Edges) && p.inHeadComponent(g.Edges[i].From, e) && !p.inHeadComponent(g.Edges[i].To, e) ==>
+//@       g.Edges[i] != e && !g.Edges[i].IsInSpanningTree
+//@   requires[min|C03] forall i int :: 0 <= i && i < len(g.Edges) && enterCand(p, g.Edges[i], e) ==>
+//@       f.To.Layer - f.From.Layer - f.Delta <= g.Edges[i].To.Layer - g.Edges[i].From.Layer - g.Edges[i].Delta
+//@   ensures[feas|C03] forall i int :: 0 <= i && i < len(g.Edges) ==> g.Edges[i].To.Layer - g.Edges[i].From.Layer - g.Edges[i].Delta >= 0
 //@   loop range(g.Nodes)#1 index a
 //@     invariant[|C03] forall j int :: 0 <= j && j < a ==> g.Nodes[j].Layer == old(g.Nodes[j].Layer) - (old(p.inHeadComponent(g.Nodes[j], e)) ? 0 : d)
 //@     invariant[|C03] forall j int :: a <= j && j < len(g.Nodes) ==> g.Nodes[j].Layer == old(g.Nodes[j].Layer)
